@@ -20,6 +20,7 @@ func TestC17(t *testing.T) {
 	r.Assume("real AWS KMS is not reachable offline; the fakes are written from the API semantics and are trusted")
 	awsx.Sweep(r, "C17", ev.Pick(3, 4), ev.Pick(2, 3))
 	slowRegions(t, r)
+	oddFailures(t, r)
 	r.Exhaustive(true)
 	r.Finish(t)
 }
@@ -78,6 +79,60 @@ func slowRegions(t *testing.T, r *ev.Run) {
 					}()
 				}
 			}
+		}
+	}
+}
+
+// oddFailures: (a) one region's Encrypt fails at once while another region's Encrypt is still in flight (slow but
+// healthy): the healthy region keeps its envelope entry; (b) the preferred region's Decrypt fails with an error that
+// wraps context.DeadlineExceeded (a client-side HTTP timeout) while the caller's context is alive: the other regions
+// are still tried.
+func oddFailures(t *testing.T, r *ev.Run) {
+	regions := []string{"us-west-2", "eu-west-1", "ap-south-1"}
+	for _, version := range []int{1, 2} {
+		for _, alias := range []bool{false, true} {
+			name := fmt.Sprintf("v%d/alias=%v", version, alias)
+			func() {
+				defer func() {
+					if pv := recover(); pv != nil {
+						r.Violation("panic:odd-failures", fmt.Sprintf("%s: %v", name, pv), nil)
+					}
+				}()
+				synctest.Test(t, func(t *testing.T) {
+					cloud := awskms.NewCloud(regions...)
+					if alias {
+						cloud.UseAliases()
+					}
+					k, _, err := awsx.Build(version, cloud, regions, regions[0])
+					if err != nil {
+						r.Violation("build-failed", fmt.Sprintf("%s: %v", name, err), nil)
+						return
+					}
+					sk := bytes.Repeat([]byte{0x17}, 32)
+					// (a)
+					cloud.Regions[regions[1]].FailEncrypt = true
+					cloud.Regions[regions[2]].SlowEncrypt = 2 * time.Second
+					env, err := k.EncryptKey(context.Background(), append([]byte(nil), sk...))
+					r.Eval(1)
+					r.Count("odd_failure_wraps", 1)
+					r.Distinct("odd|" + name)
+					if err != nil {
+						r.Violation(fmt.Sprintf("wrap-success-mismatch:v%d:odd", version), fmt.Sprintf("%s: EncryptKey failed although the preferred region generated the data key: %v", name, err), nil)
+						return
+					}
+					if !bytes.Contains(env, []byte(regions[2])) {
+						r.Violation(fmt.Sprintf("envelope-entries-mismatch:v%d:odd", version), fmt.Sprintf("%s: %s wrapped the data key successfully (slowly) while %s failed at once, but the envelope has no entry for it: %s", name, regions[2], regions[1], env), nil)
+					}
+					// (b)
+					cloud.Reset()
+					cloud.Regions[regions[0]].TimeoutDecrypt = true
+					out, err := k.DecryptKey(context.Background(), env)
+					r.Eval(1)
+					if err != nil || !bytes.Equal(out, sk) {
+						r.Violation(fmt.Sprintf("unwrap-success-mismatch:v%d:odd", version), fmt.Sprintf("%s: the preferred region's Decrypt hit a client-side timeout; a healthy region with an entry was available but DecryptKey returned %v", name, err), nil)
+					}
+				})
+			}()
 		}
 	}
 }
